@@ -57,6 +57,7 @@ THEOREMS = {
         "Shroud.Scope.merged_value",
         "Shroud.Scope.coerce_spellings",
         "Shroud.Scope.coerce_other",
+        "Shroud.Scope.coerce_digits",
         "Shroud.Scope.cmdOptions_pairs",
         "Shroud.Scope.cli_eq_yaml",
         "Shroud.Scope.cli_eq_yaml_absent",
@@ -443,6 +444,14 @@ def canon_model_attr(line):
 # =====================================================================================
 # (D4) --option / --language merge vs model
 # =====================================================================================
+def _enc_cval(v):
+    if isinstance(v, bool):
+        return "b:%d" % v
+    if isinstance(v, int):
+        return "i:%d" % v
+    return "s:" + common.enc(v)
+
+
 class _Captured(Exception):
     pass
 
@@ -484,7 +493,7 @@ def real_merge(scr, yopts, ylang, opts, lang):
         o = "Z"
     else:
         items = [(k, v) for k, v in node["options"].items() if k != "__line__"]
-        o = "D" + (";".join("%s=%s" % (common.enc(k), ("b:%d" % v) if isinstance(v, bool) else "s:" + common.enc(v))
+        o = "D" + (";".join("%s=%s" % (common.enc(k), _enc_cval(v))
                             for k, v in items) if items else "~")
     l = node.get("language")
     return "ok %s %s" % (o, "N" if l is None else common.enc(l))
@@ -493,7 +502,7 @@ def real_merge(scr, yopts, ylang, opts, lang):
 def enc_yopts(y):
     if y in ("A", "Z"):
         return y
-    return "D" + (";".join("%s=%s" % (common.enc(k), ("b:%d" % v) if isinstance(v, bool) else "s:" + common.enc(v))
+    return "D" + (";".join("%s=%s" % (common.enc(k), _enc_cval(v))
                            for k, v in y.items()) if y else "~")
 
 
@@ -1164,8 +1173,8 @@ def run(ctx):
         "container = members is checked on outputs only for options/format fields measured to be read from function (or argument) scopes only; "
         "options read at container level (doxygen, debug, literalinclude, wrap_*, file name templates ...) are outside that equivalence",
         "the JSON debug dump is excluded from container/member comparisons (it records the node an option was written on)",
-        "command-line option values are text: equivalence with a YAML field holds where YAML yields the same bool/str (an integer YAML "
-        "value such as C_line_length: 100 is not what --option C_line_length=100 passes)",
+        "command-line option values are text coerced to bool (true/True/false/False), int (ASCII digit strings) or str: equivalence "
+        "with a YAML field holds where YAML resolves the scalar to that same value (not for yes/on/1.5/negative numbers)",
     ]
     scr = common.scratch("shroudverif-c14-")
     try:
@@ -1216,11 +1225,11 @@ def _run(ctx, thorough, ok, drv, scr):
     # ---------------- D4 CLI merge
     ncl = 300 if thorough else 60
     names = ["debug", "wrap_python", "PY_array_arg", "F_CFI", "x"]
-    vals = ["true", "True", "false", "False", "TRUE", "list", "", "a=b", "0", "yes"]
+    vals = ["true", "True", "false", "False", "TRUE", "list", "", "a=b", "0", "yes", "100", "007", "1e3", "-1"]
     for i in range(ncl):
         yo = r.choice(["A", "Z", "D", "D", "D"])
         if yo == "D":
-            yo = {n: r.choice([True, False, "list", "q"]) for n in r.sample(names, r.randrange(0, 3))}
+            yo = {n: r.choice([True, False, "list", "q", 72]) for n in r.sample(names, r.randrange(0, 3))}
         ylang = r.choice([None, "c", "c++"])
         lang = r.choice([None, None, "c", "c++", ""])
         opts = []
